@@ -45,8 +45,10 @@ ASSUMPTIONS = [
     "(no simultaneous edges)",
 ]
 BOUNDS = "BMC from reset, period_cyc=4 (thorough also 8 for the start/stop layer); layer A: everything free, K covers " \
-         "start/stop/repeated start and the first bits of a transfer; layer B: no clock stretching (tgt_scl=1), target SDA " \
-         "and controller free: one complete write or read and the following operation; layer C: bounded stretching"
+         "start/stop/repeated start sequences and the first bits of a transfer incl. stretching; layer B: request times " \
+         "pinned (cycle 1 and >=100, kind and data free), no stretching, target SDA free: one complete write or read and " \
+         "the following operation; layer C (thorough): the same with free stretching in the first 50 cycles, and START " \
+         "followed by a complete transfer"
 OUTSIDE = "period_cyc values other than 4 (8); clk_stretch=False; strobes while busy is high (the first IDLE cycle accepts " \
           "them although the docstring says they are ignored -- not part of the statement); more than ~1.3 byte " \
           "transfers per run; I2CRegisterInterface"
@@ -229,36 +231,57 @@ class I2CHarness(Harness):
         return d
 
 
+STROBES = ("start", "stop", "write", "read")
+
+
+def _only_at(times, first_kinds=None):
+    """layer: controller strobes may be given only at the listed cycles (free there), 0 elsewhere"""
+    lay = {}
+    for n in STROBES:
+        lay[n] = (lambda t, n=n: (None if t in times else 0))
+    return lay
+
+
 def queries(tier):
     qs = []
     quick = tier == "quick"
     f4 = lambda: I2CHarness(4)
     ctrl_asserts = ["sda_change", "start_stop", "stretch", "busy_rises", "write_bits", "read_release", "nine_clocks"]
-    # layer A: everything free
-    KA = 36 if quick else 48
+    # layer A: everything free (operation sequences start / repeated start / stop / first bits, stretching)
+    KA = 36 if quick else 46
     qs.append(Query("bmc_free", f4, KA, timeout=900,
                     covers=["start_done", "repeated_start_done", "stop_done", "stretched_bit", "write_bit3", "read_bit3",
                             "start_then_write"],
                     desc="period_cyc=4: controller strobes, data, target SCL (stretching) and SDA free every cycle"))
-    # layer B: no stretching, a whole transfer
-    KB = 118 if quick else 150
-    qs.append(Query("bmc_nostretch", f4, KB, timeout=900, layer={"tgt_scl": 1},
+    # layer B: one whole transfer.  The operation requested in cycle 1 is free (any of the four, data free), later
+    # requests are possible again from cycle 100 on; the target never stretches, its SDA is free.
+    KB = 124 if quick else 150
+    lay = _only_at(set([1]) | set(range(100, 200)))
+    lay["tgt_scl"] = 1
+    qs.append(Query("bmc_one_transfer", f4, KB, timeout=900, layer=lay,
                     covers=["write_acked", "write_nacked", "read_done"],
                     hints={"write_acked": {"start": 0, "stop": 0, "read": 0},
                            "write_nacked": {"start": 0, "stop": 0, "read": 0},
                            "read_done": {"start": 0, "stop": 0, "write": 0}},
-                    desc="layer: target never stretches (tgt_scl=1); controller and target SDA free: a complete write or read "
-                         "and whatever follows"))
+                    desc="layer: requests only in cycle 1 and from cycle 100 on (kind/data free), no clock stretching, target "
+                         "SDA free: a complete write or read (all 9 clocks, ack, data) and the operation after it"))
+    # layer C: the same with the target stretching freely during the first 50 cycles
     if not quick:
-        # layer C: stretching allowed only in the first 40 cycles, complete transfer
-        qs.append(Query("bmc_stretch_early", f4, 140, timeout=900, required=False,
-                        layer={"tgt_scl": (lambda t: None if t < 40 else 1)},
-                        covers=["write_acked", "read_done"],
+        lay = _only_at(set([1]) | set(range(120, 200)))
+        lay["tgt_scl"] = (lambda t: None if t < 50 else 1)
+        qs.append(Query("bmc_one_transfer_stretch", f4, 150, timeout=900, layer=lay, covers=["write_acked", "read_done"],
                         hints={"write_acked": {"start": 0, "stop": 0, "read": 0},
                                "read_done": {"start": 0, "stop": 0, "write": 0}},
-                        desc="layer: stretching free in the first 40 cycles only; complete transfer"))
+                        desc="layer: request in cycle 1 (free kind), target stretches freely in the first 50 cycles; "
+                             "complete transfer"))
+        # start; transfer: request kinds free at cycle 1 and cycle 14.. (after a START has completed)
+        lay = _only_at(set([1]) | set(range(12, 20)))
+        lay["tgt_scl"] = 1
+        qs.append(Query("bmc_start_transfer", f4, 140, timeout=900, layer=lay, covers=["write_acked"],
+                        hints={"write_acked": {"stop": 0, "read": 0}},
+                        desc="layer: requests only in cycles 1 and 12-19: START (or anything) followed by a complete transfer"))
         f8 = lambda: I2CHarness(8)
-        qs.append(Query("bmc_free_p8", f8, 60, timeout=900, asserts=ctrl_asserts,
+        qs.append(Query("bmc_free_p8", f8, 56, timeout=900, asserts=ctrl_asserts,
                         covers=["start_done", "stop_done"],
                         desc="period_cyc=8: everything free, start/stop/first bits"))
     qs.append(Query("cosim", f4, 0, kind="cosim", cosim_cycles=400 if quick else 3000))
